@@ -638,6 +638,7 @@ func runC14(cfg Config) {
 	runProtoSessions(cfg, rep, m, rng, cfg.N(250, 6000), cfg.N(250, 6000))
 	c14CLI(cfg, rep, rng)
 	c14IndexUpstreams(cfg, rep, rng)
+	runSshPool(cfg, rep, m, rng)
 	rep.Write(cfg.Out)
 }
 
